@@ -68,6 +68,8 @@ def run_pygen(stages=()):
 def lint():
     bad = []
     for root, _, files in os.walk(COQ):
+        if "/wip" in root or "/.cases" in root:
+            continue
         for fn in files:
             if not fn.endswith(".v"):
                 continue
@@ -92,7 +94,8 @@ def ensure_makefile():
     mf = os.path.join(COQ, "Makefile.coq")
     cp = os.path.join(COQ, "_CoqProject")
     vfiles = sorted(os.path.relpath(os.path.join(r, f), COQ)
-                    for r, _, fs in os.walk(COQ) for f in fs if f.endswith(".v"))
+                    for r, _, fs in os.walk(COQ) for f in fs
+                    if f.endswith(".v") and "/wip" not in r and "/.cases" not in r)
     listing = os.path.join(COQ, ".vfiles")
     old = open(listing).read() if os.path.exists(listing) else ""
     new = "\n".join(vfiles)
